@@ -102,17 +102,26 @@ def run(ctx):
                                                 vcd=rec['vcd'].tolist(), w=rec['w'].tolist()))
       break
   # ---- fits
-  for i in range(40 if thorough else 10):
+  for i in range(48 if thorough else 16):
     data = fits.make_data(rng, d=int(rng.integers(2, 5)))
     d = data['d']
     Q = data['X'][data['quad_idx']]
+    # quadruplets whose first pair is one point twice (a == b): d(a,b) = 0 <= d(c,d) under every metric, so they
+    # contribute nothing to the residual -- but they carry their share of the (normalised) weights
+    trivial = 0
+    if rng.random() < 0.5:
+      Q = Q.copy()
+      for j in rng.choice(len(Q), size=int(rng.integers(1, max(2, len(Q) // 3))), replace=False):
+        Q[j, 1] = Q[j, 0]
+        trivial += 1
+    ctx.hist('trivially_satisfied_quadruplets', trivial)
     prior = ['identity', 'covariance', 'random', 'array'][i % 4]
     kw = dict(prior=prior if prior != 'array' else fits.spd_array(rng, d), max_iter=int(rng.choice([5, 50, 300])), tol=1e-3, random_state=3)
     wkind = ['none', 'list', 'int', 'float'][i % 4 if i % 5 else 0]
     m = len(Q)
     wts = None if wkind == 'none' else [1.0 + (j % 3) for j in range(m)] if wkind == 'list' else \
         np.arange(1, m + 1) if wkind == 'int' else rng.uniform(0.5, 2.0, size=m) * 100.0
-    inp = dict(prior=prior, weights=wkind, X=data['X'].tolist(), quad_idx=data['quad_idx'].tolist(),
+    inp = dict(prior=prior, weights=wkind, quadruplets=Q.tolist(),
                params={k: (v if not isinstance(v, np.ndarray) else 'ndarray') for k, v in kw.items()})
     ctx.count('fit_runs', 1)
     try:
@@ -158,7 +167,7 @@ def run(ctx):
     if wts is not None:
       with warnings.catch_warnings():
         warnings.simplefilter('ignore')
-        e2 = LSML(**kw).fit(Q, weights=np.asarray(wts, dtype=float) * 7.0)
+        e2 = LSML(**kw).fit(Q, weights=np.asarray(wts, dtype=float) * 8.0)     # a power of two: the normalised weights are bit-identical, so no step decision can flip on rounding
       ctx.count('weight_scale', 1)
       if not np.allclose(e2.get_mahalanobis_matrix(), M, rtol=1e-6, atol=1e-9):
         ctx.fail_input('weight_scale', 'multiplying all weights by a constant changes the result', inp)
